@@ -96,6 +96,7 @@ type InputVar struct {
 type modLoc struct {
 	ptr   Val
 	elems bool
+	isMap bool
 }
 
 func (x *Exec) allocLimit() uint32 { return AllocBase + x.allocN }
@@ -842,7 +843,19 @@ func (f *frame) evalInvariant(li *loopInfo, inv *Clause, at *node, slot int, hea
 			uniq[v] = true
 		}
 		if len(uniq) != 1 {
-			unsup("invariant of %s names %q which is neither loop-carried in loop%d nor uniquely defined", f.fn.Name(), b.Name, li.ordinal)
+			// assigned on several paths before the loop: the phi that merges them
+			var phis []ssa.Value
+			for _, blk := range f.fn.Blocks {
+				for _, ins := range blk.Instrs {
+					if phi, ok := ins.(*ssa.Phi); ok && phi.Comment == b.Name && !li.body[blk] {
+						phis = append(phis, phi)
+					}
+				}
+			}
+			if len(phis) != 1 {
+				unsup("invariant of %s names %q which is neither loop-carried in loop%d nor uniquely defined", f.fn.Name(), b.Name, li.ordinal)
+			}
+			uniq = map[ssa.Value]bool{phis[0]: true}
 		}
 		for v := range uniq {
 			binder[b.Name] = f.lookup(at, v)
